@@ -44,6 +44,8 @@ class CrashNode:
         events: list[Event] = []
 
         def crash(e: Event) -> None:
+            # Crash/pause windows on one entity may overlap: count the open ones
+            entity._crash_depth = getattr(entity, "_crash_depth", 0) + 1  # type: ignore[attr-defined]
             entity._crashed = True  # type: ignore[attr-defined]
             logger.info("[FaultInjection] Crashed '%s' at %s", entity_name, e.time)
 
@@ -59,7 +61,9 @@ class CrashNode:
         if self.restart_at is not None:
 
             def restart(e: Event) -> None:
-                entity._crashed = False  # type: ignore[attr-defined]
+                # Stay down while another crash/pause window still covers the entity
+                entity._crash_depth = max(0, getattr(entity, "_crash_depth", 1) - 1)  # type: ignore[attr-defined]
+                entity._crashed = entity._crash_depth > 0  # type: ignore[attr-defined]
                 logger.info(
                     "[FaultInjection] Restarted '%s' at %s",
                     entity_name,
@@ -101,11 +105,15 @@ class PauseNode:
         events: list[Event] = []
 
         def pause(e: Event) -> None:
+            # Crash/pause windows on one entity may overlap: count the open ones
+            entity._crash_depth = getattr(entity, "_crash_depth", 0) + 1  # type: ignore[attr-defined]
             entity._crashed = True  # type: ignore[attr-defined]
             logger.info("[FaultInjection] Paused '%s' at %s", entity_name, e.time)
 
         def resume(e: Event) -> None:
-            entity._crashed = False  # type: ignore[attr-defined]
+            # Stay down while another crash/pause window still covers the entity
+            entity._crash_depth = max(0, getattr(entity, "_crash_depth", 1) - 1)  # type: ignore[attr-defined]
+            entity._crashed = entity._crash_depth > 0  # type: ignore[attr-defined]
             logger.info("[FaultInjection] Resumed '%s' at %s", entity_name, e.time)
 
         events.append(
